@@ -805,8 +805,19 @@ class _Desugar(ast.NodeTransformer):
         return node
 
     def visit_Subscript(self, node):
-        # 21. `X[slice(a, b)]` is `X[a:b]`
+        # 21. `X[slice(a, b)]` is `X[a:b]`;  22. `{True: A, False: B}[T]` is `A if T else B`
         self.generic_visit(node)
+        if isinstance(node.value, ast.Dict) and len(node.value.keys) == 2 and all(isinstance(k_, ast.Constant) and isinstance(k_.value, bool) for k_ in node.value.keys) \
+                and {k_.value for k_ in node.value.keys} == {True, False} and isinstance(node.ctx, ast.Load):
+            d_ = {k_.value: v_ for k_, v_ in zip(node.value.keys, node.value.values)}
+            t_ = node.slice
+            # the subscript is a bool only if the test is one: comparisons, `not`, bool(), and/or of those
+            def _boolish(e):
+                return isinstance(e, ast.Compare) or (isinstance(e, ast.UnaryOp) and isinstance(e.op, ast.Not)) or \
+                    (isinstance(e, ast.Call) and isinstance(e.func, ast.Name) and e.func.id == 'bool') or \
+                    (isinstance(e, ast.BoolOp) and all(_boolish(v_) for v_ in e.values))
+            if _boolish(t_):
+                return ast.copy_location(ast.IfExp(test=t_, body=d_[True], orelse=d_[False]), node)
         sl = node.slice
         if isinstance(sl, ast.Call) and isinstance(sl.func, ast.Name) and sl.func.id == 'slice' and len(sl.args) in (2, 3) and not sl.keywords:
             none = lambda e: None if isinstance(e, ast.Constant) and e.value is None else e      # noqa: E731
